@@ -26,13 +26,13 @@ import (
 	"encoding/json"
 	"fmt"
 	"testing"
-	"testing/fstest"
 
 	"github.com/titpetric/vuego"
 
 	"verif/internal/ev"
 	"verif/internal/hx"
 	"verif/internal/kf"
+	"verif/internal/memfs"
 	"verif/internal/run"
 	"verif/internal/vals"
 )
@@ -60,13 +60,14 @@ func openFindings() map[string]bool {
 	return open
 }
 
-// render asks vuego for the output of tpl over data through one of two entry points.
+// render asks vuego for the output of tpl over data through one of two entry points; the file
+// entry point serves the page and the component from an in-memory file system.
 func render(tpl string, data map[string]any, entry string) (string, error) {
 	var b bytes.Buffer
 	var err error
 	switch entry {
 	case "file":
-		fsys := fstest.MapFS{"page.vuego": &fstest.MapFile{Data: []byte(tpl)}}
+		fsys := memfs.FromMap(map[string]string{"page.vuego": tpl, "comp.vuego": componentSource})
 		err = vuego.NewFS(fsys).Load("page.vuego").Fill(data).Render(context.Background(), &b)
 	default:
 		err = vuego.New().Fill(data).RenderString(context.Background(), &b, tpl)
@@ -78,7 +79,11 @@ func render(tpl string, data map[string]any, entry string) (string, error) {
 func check(c Case) error {
 	want, st := expect(&c)
 	src := c.source()
-	out, err := render(src, c.data(), c.Entry)
+	entry := c.Entry
+	if hasInclude(c.Nodes) {
+		entry = "file" // includes need a file system
+	}
+	out, err := render(src, c.data(), entry)
 	desc := func() string {
 		v, _ := json.Marshal(c.Vars)
 		l, _ := json.Marshal(c.Lists)
@@ -125,6 +130,10 @@ func classify(c Case) (bool, []string) {
 	add(st.sibBefore, "sibling-before")
 	add(st.sibAfter, "sibling-after")
 	add(st.loopEmpty, "empty-loop")
+	add(st.includes > 0, fmt.Sprintf("include(props<=%d)", st.maxProps))
+	add(st.probes > 0, "probe(v-show,:attr,:class)")
+	add(st.propCond, "cond-names-undefined-prop")
+	add(st.propInLoop && st.includes > 0, "undefined-prop-cond-in-loop-with-include")
 	add(c.Entry == "file", "entry=file")
 	add(c.Entry == "", "entry=string")
 	add(st.depth >= 3, "depth>=3")
@@ -145,7 +154,7 @@ func replay(kind string, raw json.RawMessage) error {
 	switch kind {
 	case "table", "value":
 		return run.Decode(raw, checkTruth)
-	default: // "shape", "nest"
+	default: // "shape", "scope", "nest"
 		return run.Decode(raw, check)
 	}
 }
@@ -216,6 +225,23 @@ func TestProp(t *testing.T) {
 			bound = "0..2 v-else-if in the full product, 3 v-else-if with siblings on both sides only and without the adjacent-chain / orphan products"
 		}
 		rec.Exhaustive(fmt.Sprintf("chains: v-if + %s + optional v-else x all 2^n truth assignments x 4 separators x 4 sibling layouts x {top, div, v-for body} x {plain, all-template, one template member, one member with v-for, one negated condition}, plus two adjacent chains and orphan v-else / v-else-if in 6 positions (%d cases)", bound, n))
+	}
+
+	// ---- stale-scope placements: chains / probes in a loop body that follows an include with 9..12 props
+	ns, sfailed := 0, 0
+	enumScope(func(c Case) bool {
+		ns++
+		if ns%shards != shard {
+			return true
+		}
+		nt, cls := classify(c)
+		if !run.Each(rec, "scope", c, nt, cls, check) {
+			sfailed++
+		}
+		return sfailed < 5
+	})
+	if sfailed == 0 {
+		rec.Exhaustive(fmt.Sprintf("stale scope: include with 9..12 props x {later sibling loop, later iteration, conditional include in the loop, nested} x chain shapes (0..2 v-else-if, optional v-else, conditions naming the props, one optionally true) + v-show/:attr/:class probes, pattern repeated 3 times (%d cases)", ns))
 	}
 
 	// ---- Family C: random deeper nestings; random values for the table
